@@ -579,7 +579,8 @@ func vh_C05_law_StreamSetSpareCapacity() {
 		}
 		vfAssert("union-stream-member", vfMember([]int(*u1.MapSetDef[1]), probe) == inK1)
 		vfAssert("union-stream-member", vfMember([]int(*u2.MapSetDef[1]), probe) == inK1g)
-		vfAssert("union-other-key-untouched", vfAnd(vfSliceEq([]int(*u1.MapSetDef[2]), []int{c, d}), vfSliceEq([]int(*u2.MapSetDef[2]), []int{c, d})))
+		inK2 := vfOr(probe == c, probe == d)
+		vfAssert("union-other-key-untouched", vfAnd(vfMember([]int(*u1.MapSetDef[2]), probe) == inK2, vfMember([]int(*u2.MapSetDef[2]), probe) == inK2))
 		vfAssert("operands-unmodified", vfAnd(vfSliceEq([]int(w1), []int{a, b}), vfSliceEq([]int(w2), []int{c, d})))
 	} else {
 		barr := c05Box(arr)
@@ -606,7 +607,8 @@ func vh_C05_law_StreamSetSpareCapacity() {
 		}
 		vfAssert("union-stream-member", vfMember(c05U(s1), probe) == inK1)
 		vfAssert("union-stream-member", vfMember(c05U(s2), probe) == inK1g)
-		vfAssert("union-other-key-untouched", vfAnd(vfSliceEq(c05U(o1), []int{c, d}), vfSliceEq(c05U(o2), []int{c, d})))
+		inK2 := vfOr(probe == c, probe == d)
+		vfAssert("union-other-key-untouched", vfAnd(vfMember(c05U(o1), probe) == inK2, vfMember(c05U(o2), probe) == inK2))
 		vfAssert("operands-unmodified", vfAnd(vfSliceEq(c05U(&w1), []int{a, b}), vfSliceEq(c05U(&w2), []int{c, d})))
 	}
 	vfReach("end")
